@@ -238,6 +238,21 @@ def accessor_summary(facts, key, summ=None):
             return {"field": src[2][0], "filter": f, "kind": "some-filter"}
     if t[0] == "field":
         return {"field": t, "filter": None, "kind": "plain"}
+    # `if x.is_empty() { None } else { Some(x) }` (possibly through a private helper, inlined): two returns, split by the
+    # emptiness of the very value that is returned
+    rets = [(b, classify_return(n)) for (b, n) in returns(body)]
+    if len(rets) == 2 and sorted(c[0] for _, c in rets) == ["none", "some"]:
+        (bn, cn), (bs_, cs) = sorted(rets, key=lambda x: x[1][0])
+        an = [canon_atom(a) for _, a in atoms_at(body, bn)]
+        as_ = [canon_atom(a) for _, a in atoms_at(body, bs_)]
+        pay = cs[1]
+        v = _value(strip(pay))
+        if an == [("empty", v, True)] and as_ == [("empty", v, False)]:
+            fld = strip(pay)
+            while fld[0] in ("deref", "ref"):
+                fld = fld[-1]
+            synth = ("not", ("p", STR + "is_empty", (("arg", 2),)))
+            return {"field": fld, "filter": synth, "kind": "some-filter", "form": "if-empty-none-else-some"}
     return {"field": None, "filter": None, "kind": "unknown", "term": t}
 
 
@@ -829,9 +844,14 @@ def canon_atom(a):
                         return ("empty", _value(strip(x)), eqpos)
                     return ("inlist", (y[1],), _value(strip(x)), eqpos)
         if p in ("std::iter::Iterator::all", "std::iter::Iterator::any") and len(args) == 2 and args[1][0] in ("closure", "fn"):
-            it = args[0][2] if args[0][0] == "var" else args[0]
+            it = args[0]
+            while it[0] == "var" and len(it) > 2:
+                it = it[2]
             if it[0] == "call" and it[1] == STR + "chars":
                 return (p.split("::")[-1], _value(it[2][0]), args[1][1], pos)
+            # x.split(c).all(str::is_empty): x consists of separators only  ==  x.trim_matches(c).is_empty()
+            if p.endswith("::all") and it[0] == "call" and it[1] == STR + "split" and cchar(it[2][1]) is not None and args[1] == ("fn", STR + "is_empty"):
+                return ("empty", ("Trim", cchar(it[2][1]), _value(it[2][0])), pos)
         return ("pred", p, tuple(_value(y) for y in args), pos)
     if k == "cmp":
         # x.len() == 0  /  x.len() != 0   is an emptiness test
